@@ -1,4 +1,5 @@
-(** Wire entry points of property C03 (stub: replaced when the model is built). *)
+(** Wire entry points of the latex2text properties (C03 C07 C12): sub 0 tree-level, sub 1 end-to-end. *)
 From Coq Require Import ZArith List.
-From PLV Require Import Base.Wire.
-Definition entry (sub : Z) (inp : list Z) : list Z := bad_input.
+From PLV Require Import Base.Wire L2T.L2TWire.
+Definition entry (sub : Z) (inp : list Z) : list Z :=
+  if Z.eqb sub 0 then entry_l2t_tree inp else if Z.eqb sub 1 then entry_l2t_e2e inp else bad_input.
